@@ -8,7 +8,7 @@
 From Coq Require Import List NArith ZArith Bool.
 From WV Require Import Lib.PyBytes Lib.Regex Gen.GenRegex Model.Receiver Model.UrlSplit Model.Parser Model.ChanSeq.
 From WV Require Import Spec.Ref9112 Proof.C01Lib Proof.C01Framing Proof.C01Head Proof.C01Body Proof.C01Close
-  Proof.C01Refuse Proof.C01Boundary Proof.C01Observe.
+  Proof.C01Refuse Proof.C01Boundary Proof.C01ReqLine Proof.C01Observe.
 Import ListNotations.
 Local Open Scope N_scope.
 
@@ -33,6 +33,16 @@ Theorem C01_T1_head : forall ls, Forall bytes_ok ls -> Forall (fun l => l <> [])
   end.
 Proof. exact head_equiv. Qed.
 Print Assumptions C01_T1_head.
+
+Theorem C01_T1_request_line : forall l, bytes_ok l -> has_crlf_byte l = false ->
+  match crack_first_line l with
+  | None => request_line_shape l = None
+  | Some (m, u, v) =>
+    if beqb m [] && beqb u [] && beqb v [] then request_line_shape l = None
+    else request_line_shape l = Some (m, u, v)
+  end.
+Proof. exact request_line_equiv. Qed.
+Print Assumptions C01_T1_request_line.
 
 (* ---- T2: bodies ----------------------------------------------------------- *)
 
@@ -205,6 +215,12 @@ Theorem C01_cl_with_te_is_chunked : forall h,
   model_framing h s_1_1 = MChunked.
 Proof. exact cl_with_te_is_chunked. Qed.
 Print Assumptions C01_cl_with_te_is_chunked.
+
+Theorem C01_refuse_non_ascii_target : forall uri,
+  beqb (firstn 2 uri) [47; 47] = false -> existsb (fun x => 128 <=? x) uri = true ->
+  split_uri uri = SBadURI.
+Proof. exact non_ascii_target_refused. Qed.
+Print Assumptions C01_refuse_non_ascii_target.
 
 (* ---- T4a: where the head ends ---------------------------------------------------- *)
 
